@@ -78,7 +78,17 @@ Restart ==
   /\ UNCHANGED <<chain, nextUid, fin, temp, pruned>>
   /\ script' = Append(script, [op |-> "restart", view |-> View(chain, fin, temp, pruned)])
 
-Next == AddBlock \/ RemoveTip \/ ClearTemp \/ Restart
+\* the genesis block is never removed (at whatever height it is): an attempt on a chain without any other block is refused
+\* and changes nothing
+MaxGenesisRemovals == 1
+NGenesisRm == Cardinality({i \in 1..Len(script) : script[i].op = "removegenesis"})
+RemoveGenesis ==
+  /\ Len(script) < MaxSteps /\ Tip = 0 /\ NGenesisRm < MaxGenesisRemovals
+  /\ UNCHANGED <<chain, nextUid, fin, temp, pruned>>
+  /\ \E saveTemp \in BOOLEAN :
+       script' = Append(script, [op |-> "removegenesis", saveTemp |-> saveTemp, view |-> View(chain, fin, temp, pruned)])
+
+Next == AddBlock \/ RemoveTip \/ RemoveGenesis \/ ClearTemp \/ Restart
 Spec == Init /\ [][Next]_vars
 
 (* ------------------------------ properties ------------------------------ *)
@@ -93,7 +103,7 @@ AddRemoveIdentity ==
        (Len(s) >= 2 /\ s[Len(s)].op = "remove" /\ s[Len(s) - 1].op = "add" /\ ~s[Len(s)].saveTemp /\ ~s[Len(s) - 1].rmTemp) =>
           (Len(s) = 2 \/ (s[Len(s)].view.uids = s[Len(s) - 2].view.uids /\ s[Len(s)].view.temp = s[Len(s) - 2].view.temp))]_vars
 
-StoreView == <<chain, fin, temp, pruned, Len(script), NRestart>>
+StoreView == <<chain, fin, temp, pruned, Len(script), NRestart, NGenesisRm>>
 DumpInv ==
   (DumpEvery > 0 /\ (Len(script) = MaxSteps \/ ~ENABLED Next) /\ RandomElement(1..DumpEvery) = 1)
     => PrintT(<<"DUMP", ToJson([script |-> script])>>)
